@@ -282,7 +282,13 @@ func bodyC05(c c05Case, x *vkit.Ctx) {
 	for si, st := range c.Steps {
 		_, ec, _ := n.Serf.VerifClocks()
 		mclock := uint64(ec)
-		cutoff := uint64(n.Serf.VerifEventMinTime())
+		// The cut-off used by the model is the harness's own: the node has no
+		// snapshot, so the only thing that raises it is an ignore-old join, and the
+		// documented meaning of that is "events sent before the join are ignored",
+		// i.e. everything below the event time E the peer announced (the first
+		// event fired after the join carries exactly E and must be delivered).
+		cutoff := ignoreBelow
+		nodeCut := uint64(n.Serf.VerifEventMinTime())
 		switch st.Kind {
 		case 0:
 			k := c05KeyOf(st.Ev.LT, st.Ev)
@@ -340,14 +346,14 @@ func bodyC05(c c05Case, x *vkit.Ctx) {
 				release <- struct{}{}
 				<-done
 				newCut := uint64(n.Serf.VerifEventMinTime())
-				if newCut < cutoff {
-					x.Violationf("cutoff-decreased", "step %d: event cut-off went from %d to %d", si, cutoff, newCut)
+				if newCut < nodeCut {
+					x.Violationf("cutoff-decreased", "step %d: event cut-off went from %d to %d", si, nodeCut, newCut)
 					return
 				}
-				cutoff = newCut
 				if elt > ignoreBelow {
 					ignoreBelow = elt
 				}
+				cutoff = ignoreBelow
 				x.Label("step:pushpull-during-ignore-old-join")
 			} else {
 				n.Delegate.MergeRemoteState(buf, st.Kind == 2)
